@@ -53,6 +53,12 @@ where
     pub fn set_rx_window_buffer(&mut self, buffer: u32) {
         self.rx_window_buffer = buffer;
     }
+
+    /// Access to the physical layer API object (verification harnesses only).
+    #[cfg(feature = "verif-hooks")]
+    pub fn verif_lora(&mut self) -> &mut LoRa<RK, DLY> {
+        &mut self.lora
+    }
 }
 
 /// Provide the timing values
